@@ -143,6 +143,17 @@ async fn run_one(sc: &Value, listener: &TcpListener, sched: &AsyncSched, idx: us
             steps.push(json!({"kind": "kill", "registered": node.connections().contains_key(PEER)}));
             continue;
         }
+        if kind == "move_name" {
+            let _ = node.unregister(&Atom::new("alpha")).await;
+            let ok = node.register(Atom::new("alpha"), p2.clone()).await.is_ok();
+            steps.push(json!({"kind": "move_name", "ok": ok, "registered": node.connections().contains_key(PEER)}));
+            continue;
+        }
+        if kind == "drop_name" {
+            let ok = node.unregister(&Atom::new("alpha")).await.is_ok();
+            steps.push(json!({"kind": "drop_name", "ok": ok, "registered": node.connections().contains_key(PEER)}));
+            continue;
+        }
         if kind == "ticks" {
             // "IxN": N times (silence of I ms, then a tick)
             let mut it = tgt.split('x');
